@@ -476,6 +476,9 @@ class Log():
             # Now that we know what type this variable has, add it to the log
             # config again with the correct type
             logconf.add_variable(name, var.ctype)
+        # The types are resolved, adding the configuration again must not add
+        # the variables once more
+        logconf.default_fetch_as = []
 
         # Now check that all the added variables are in the TOC and that
         # the total size constraint of a data packet with logging data is
